@@ -4,3 +4,5 @@ NOTES = ("One entry point: ./check <id> --tier quick|thorough. Every check rebui
          "model/implementation correspondence. known_findings.json lists recorded defects; see DESIGN.md.")
 NOT_APPLICABLE = {}
 CLAIMED = {}
+# properties whose check has been integrated (fix commits applied to /repo, check passes on /repo at several seeds)
+INTEGRATED = ['C04', 'C05', 'C06', 'C10', 'C11', 'C13', 'C16', 'C17', 'C18']
